@@ -337,7 +337,7 @@ def _smooth_contours(rnd, naxes, ncont):
     out = []
     for c in range(ncont):
         npts = rnd.randint(7, 13)
-        cx, cy, rad = 200 + 330 * c, 350, 250
+        cx, cy, rad = 200 + 260 * c, 350, 250
         pts = []
         for i in range(npts):
             ang = 2 * math.pi * (i + rnd.uniform(-0.3, 0.3)) / npts
@@ -402,7 +402,7 @@ def expand(spec):
         ncont = 1 if name in marks or name == ".notdef" else rnd.choice([1, 1, 2])
         contours = []
         if spec.get("smooth") and name in bases:
-            glyphs[name] = {"contours": _smooth_contours(rnd, n, ncont), "adv": _var(rnd, n, rnd.randint(400, 800), 70, 0.1)}
+            glyphs[name] = {"contours": _smooth_contours(rnd, n, ncont + 1), "adv": _var(rnd, n, rnd.randint(400, 800), 70, 0.1)}
             continue
         for c in range(ncont):
             npts = rnd.randint(3, 6)
